@@ -153,6 +153,10 @@ Fixpoint stats_set (l : list (key * ast)) (k : key) (s : ast) : list (key * ast)
   | (k', s') :: t => if key_eqb k k' then (k', s) :: t else (k', s') :: stats_set t k s
   end.
 
+(* the aggregator's numeric conversion of one value (NumHandler.parse for the kinds that have a handler) *)
+Definition conv (ak : agg_kind) (h : numh) (a : atom) : res atom * numh :=
+  match uses_numh ak with Some _ => numh_parse h a | None => (Ok a, h) end.
+
 (* aggregator.increment(key, value) *)
 Definition col_increment (c : col) (k : key) (v : val) : res col :=
   match c_kind c with
@@ -169,10 +173,7 @@ Definition col_increment (c : col) (k : key) (v : val) : res col :=
           Ok {| c_kind := c_kind c; c_numh := c_numh c; c_stats := stats_set (c_stats c) k s |}
       | _ =>
         do a <- atom_of_val v;
-        let '(pa, h') := match uses_numh ak with
-                         | Some _ => numh_parse (c_numh c) a
-                         | None => (Ok a, c_numh c)
-                         end in
+        let '(pa, h') := conv ak (c_numh c) a in
         (* the handler's state change is kept even if the conversion fails; the query fails then anyway *)
         do a' <- pa;
         do s <- agg_step ak (stats_get (c_stats c) k) a';
